@@ -1,6 +1,7 @@
 package sim
 
 import (
+	"strings"
 	"bytes"
 	"fmt"
 	"sort"
@@ -136,6 +137,8 @@ func (w *World) exec1(op Op) {
 		w.opSetColl(h, op)
 	case "rmcoll":
 		w.opRmColl(h, op)
+	case "setcolls":
+		w.opSetColls(h, op)
 	case "names":
 		w.opNames(h, op)
 	case "getcoll":
@@ -770,6 +773,41 @@ func (w *World) opSetColl(h *StoreH, op Op) {
 			w.fail("collection-name", kind, "SetCollection(%q) returned a collection named %q", op.C, c.Name())
 		}
 		w.auditColl(h, op.C, kind)
+	}
+}
+
+// BulkCollName is the name of the i-th collection of a "setcolls" op.
+func BulkCollName(i, nameLen int) string {
+	return fmt.Sprintf("bulk-%05d-", i) + strings.Repeat("n", nameLen)
+}
+
+// opSetColls creates op.N collections with op.N2-byte name padding: root
+// records around and beyond 64 KiB (a size no item or node record has).
+func (w *World) opSetColls(h *StoreH, op Op) {
+	kind := "setcolls"
+	if h.Snap || op.N <= 0 || op.N > 4000 {
+		w.Stats.Skipped++
+		return
+	}
+	w.protect(kind, func() {
+		for i := 0; i < op.N; i++ {
+			h.S.SetCollection(BulkCollName(i, op.N2), nil)
+		}
+	})
+	if w.Viol != nil {
+		return
+	}
+	for i := 0; i < op.N; i++ {
+		name := BulkCollName(i, op.N2)
+		if old, ok := h.M.Colls[name]; ok {
+			h.M.Colls[name] = old.WithCmp(CmpBytes)
+		} else {
+			h.M.Colls[name] = &MColl{Cmp: CmpBytes}
+		}
+	}
+	w.probe("bulk-collections-created")
+	if w.judges("setcoll") {
+		w.checkNames(h, kind)
 	}
 }
 
